@@ -31,3 +31,14 @@ Require Import LT.Model.Values LT.Proofs.ValuesProofs.
 Theorem C16_pickled_task_carries_no_context : forall o, getstate_extras getstate_mode_src o = (None, None).
 Proof. exact getstate_whitelist_carries_no_context. Qed.
 Print Assumptions C16_pickled_task_carries_no_context.
+
+(* ---- the Lab's context may be replaced between calls: every call hands its runner the context the Lab has when run_tasks is
+   called — given that TaskCoordinator.run reads it then (read from the source); a runner factory bound when the Lab was built
+   would keep handing out the first context. *)
+Theorem C16_context_of_this_call : forall ctx (c0 : ctx) ops,
+  handed ctx ctx_binding_src c0 c0 ops = current_at_runs ctx c0 ops.
+Proof. exact (fun ctx c0 ops => handed_is_current ctx c0 ops c0). Qed.
+Print Assumptions C16_context_of_this_call.
+Theorem C16_bound_at_init_refuted : exists (c0 c1 : nat) ops, handed nat CtxAtInit c0 c0 ops <> current_at_runs nat c0 ops.
+Proof. exact bound_at_init_refuted. Qed.
+Print Assumptions C16_bound_at_init_refuted.
